@@ -32,9 +32,12 @@ def run(tier):
     ok, text = vlib.compile_cpp(os.path.join(vlib.HARNESS, "replay_projection.cpp"), exe, std="c++20")
     if not ok:
         raise vlib.Broken("replay_projection.cpp does not compile:\n" + text[-3000:])
-    plan = [("c12_d2", consts(2, 3, 1, 1)), ("c12_d3", consts(3, 2, 1, 1)), ("c12_d2_bases", consts(2, 2, 1, 0, "BasesMixed"))]
+    # three-dimensional roots under every composition of up to three dimension permutations, then a cast (rank 4 results included)
+    perm = consts(3, 2, 3, 0)
+    perm["OpNames"] = {"rotated", "unrotated", "transposed"}
+    plan = [("c12_d2", consts(2, 3, 1, 1)), ("c12_d3", consts(3, 2, 1, 1)), ("c12_d2_bases", consts(2, 2, 1, 0, "BasesMixed")), ("c12_d3_perm", perm)]
     if tier == "thorough":
-        plan = [("c12_d2", consts(2, 3, 2, 2)), ("c12_d3", consts(3, 2, 2, 1)), ("c12_d3e3", consts(3, 3, 1, 2)), ("c12_d2_bases", consts(2, 3, 1, 1, "BasesMixed"))]
+        plan = [("c12_d2", consts(2, 3, 2, 2)), ("c12_d3", consts(3, 2, 2, 1)), ("c12_d3e3", consts(3, 3, 1, 2)), ("c12_d2_bases", consts(2, 3, 1, 1, "BasesMixed")), ("c12_d3_perm", perm)]
     per_cast = rep.cov.setdefault("per_cast", {})
     nontrivial = set()
     for name, c in plan:
@@ -81,6 +84,8 @@ def run(tier):
                 bad.append(("elements_vs_indexing", o.get("units"), o["units_by_index"]))
             if o.get("vals") != exp["vals"]:
                 bad.append(("values", exp["vals"], o.get("vals")))
+            if "copy_vals" in o and (o["copy_vals"] != exp["vals"] or o.get("copy_shape") != exp["shape"]):
+                bad.append(("array_constructed_from_the_view", [exp["shape"], exp["vals"]], [o.get("copy_shape"), o["copy_vals"]]))
             if exp["cast"] == "transformed_refb":
                 # write-through: exactly the designated b members changed, in canonical order
                 n = 1
